@@ -73,7 +73,7 @@ enum endroute { ER_NONE, ER_RETURN, ER_EXIT, ER_STOPPED, ER_STOPSELF };
 
 struct drv {
     int P;                      /* number of simulated processes */
-    struct cmb_process procs[MAXP];
+    struct cmb_process *procp[MAXP];   /* process p is *D.procp[p], a slot of des_arena chosen at start-up (see "collide") */
     bool inited[MAXP];
     enum pstate pstate[MAXP];
     enum endroute endroute[MAXP];
@@ -173,6 +173,8 @@ static inline int64_t sig_interrupt(int p, int b)
  * with timers has both kinds, for every timer armed by an odd-numbered process; the standard TIMEOUT otherwise */
 #define des_timer_signal(p, od) (((od)->b || ((p) & 1)) ? sig_timer((p), (int)(od)->a) : CMB_PROCESS_TIMEOUT)
 
+#define DES_NARENA 2048
+extern struct cmb_process des_arena[DES_NARENA];
 extern double des_tscale, des_t0;
 /* the duration an operation name stands for */
 #define des_dur(od) ((double)(od)->a * des_tscale)
